@@ -83,6 +83,165 @@ class SurfEnv:
         return [sympy.sympify(f) for f in F], cst
 
 
+class PEnv:
+    """a mapped patch like MEnv whose mapping object, names and exact components are given by the caller:
+    `make(name)` builds the sympde mapping, `F` are its components written out by hand in the logical
+    coordinates (the ground truth of the oracle does not read them back from sympde).  `mname` / `lname`
+    fix the names of the mapping and of the logical patch (history cases reuse them on purpose); the
+    function space and the functions always get names of their own"""
+
+    def __init__(self, dim, mtype, make, F, tag='c4p', mname=None, lname=None, bounds=None):
+        from sympde.topology import Line, Square, Cube, ScalarFunctionSpace, element_of
+        from sympde.topology import derivatives as dv
+        from sympde.core import Constant
+        sfx = '%s%d%s%d' % (tag, dim, mtype, next(_n))
+        self.sfx, self.mtype, self.dim = sfx, mtype, dim
+        self.mapping = make(mname or 'M' + sfx)
+        self.F = [sympy.sympify(f) for f in F]
+        self.pdim = len(self.F)
+        self.bounds = bounds
+        kw = {}
+        if bounds is not None:
+            kw = dict(bounds=bounds[0]) if dim == 1 else {'bounds%d' % (i + 1): b for i, b in enumerate(bounds)}
+        self.logical_domain = {1: Line, 2: Square, 3: Cube}[dim](lname or 'Om' + sfx, **kw)
+        self.domain = self.mapping(self.logical_domain)
+        self.coords = list(PHYS[:self.pdim])
+        V = ScalarFunctionSpace('V' + sfx, self.domain, kind='h1')
+        self.sf = {'h1': [element_of(V, name=n + sfx) for n in ('u', 'v')]}
+        self.vf = {}
+        self.cst = [Constant('c' + sfx)]
+        self.ops = [dv.dx, dv.dy, dv.dz][:dim] if self.pdim == dim else []
+
+    def model_ok(self):
+        return True
+
+    def components_sexp(self, ser):
+        return [ser.ser(e) for e in self.mapping.expressions]
+
+    def concrete(self, rng):
+        return list(self.F), {}
+
+
+def _user_mapping(ex, ldim, pdim):
+    """make(name) for a user-defined analytical mapping (a Mapping subclass with `_expressions`)"""
+    from sympde.topology import Mapping
+
+    def make(name):
+        return type('UserMap' + name, (Mapping,), {'_expressions': dict(ex), '_ldim': ldim, '_pdim': pdim})(name)
+    return make
+
+
+def _affine(dim, Amat, c):
+    """(make, F) of the catalogue AffineMapping x = c + A x̂ with numeric A, c"""
+    from sympde.topology import analytical_mapping as am
+    params = {'c%d' % (i + 1): c[i] for i in range(dim)}
+    params.update({'a%d%d' % (i + 1, j + 1): Amat[i, j] for i in range(dim) for j in range(dim)})
+    F = [c[i] + sum((Amat[i, j] * LOGI[j] for j in range(dim)), S.Zero) for i in range(dim)]
+    return (lambda name: am.AffineMapping(name, dim=dim, **params)), F
+
+
+def vp_affine_matrix(rng, dim):
+    """a matrix of determinant ±1 that is not orthogonal (volume preserving, no isometry): a product of one or two
+    elementary shears, sometimes times a squeeze diag(2, 1/2, 1) or a reflection"""
+    while True:
+        Amat = sympy.eye(dim)
+        for _ in range(rng.choice([1, 1, 2])):
+            i, j = rng.sample(range(dim), 2)
+            E = sympy.eye(dim)
+            E[i, j] = rng.choice([-2, -1, 1, 2])
+            Amat = Amat * E
+        k = rng.random()
+        if k < 0.25:
+            D = sympy.eye(dim)
+            i, j = rng.sample(range(dim), 2)
+            D[i, i], D[j, j] = S(2), Rational(1, 2)
+            Amat = D * Amat
+        elif k < 0.4:
+            D = sympy.eye(dim)
+            i = rng.randrange(dim)
+            D[i, i] = -1
+            Amat = Amat * D
+        if (Amat.T * Amat) != sympy.eye(dim) and abs(Amat.det()) == 1:
+            return Amat
+
+
+def vp_env(rng, dim, mtype, tag='c4'):
+    """volume-preserving mappings that are no isometries (det(JᵀJ) = 1 on the interior, yet the faces are
+    stretched): the element of a face is that of the face Jacobian, never the one of the full metric.
+    `vpaffine`: a catalogue AffineMapping with a unimodular matrix (shear, squeeze); `vppoly`: a user-defined
+    polynomial shear  x_i = x̂_i + p(x̂_j, j < i)  (triangular with unit diagonal)"""
+    if mtype == 'vpaffine':
+        Amat = vp_affine_matrix(rng, dim)
+        make, F = _affine(dim, Amat, [S(rng.choice([-1, 0, 0, 2])) for _ in range(dim)])
+        return PEnv(dim, mtype, make, F, tag=tag)
+    a, b, c = (Rational(rng.choice([-2, -1, 1, 1, 2, 3]), rng.choice([1, 1, 2, 3])) for _ in range(3))
+    X = [Symbol('x%d' % (i + 1)) for i in range(3)]
+    if dim == 2:
+        lower = rng.random() < 0.6
+        p = a * X[0 if lower else 1] ** 2 + (b * X[0 if lower else 1] if rng.random() < 0.4 else 0)
+        ex = [X[0], X[1] + p] if lower else [X[0] + p, X[1]]
+    else:
+        ex = [X[0], X[1] + a * X[0] ** 2, X[2] + b * X[0] * X[1] + (c * X[1] if rng.random() < 0.5 else 0)]
+    F = [sympy.sympify(e).subs({X[i]: LOGI[i] for i in range(3)}) for e in ex]
+    names = dict(zip('xyz', (str(e) for e in ex)))
+    return PEnv(dim, mtype, _user_mapping(names, dim, dim), F, tag=tag)
+
+
+def catalogue(fam, p):
+    """(make, F, ldim) of a catalogue mapping with numeric parameters `p`; F is written out here from the
+    defining formulas (polar, target, torus, torus surface, affine), not read back from sympde"""
+    from sympde.topology import analytical_mapping as am
+    x1, x2, x3 = LOGI
+    cos, sin = sympy.cos, sympy.sin
+    if fam == 'affine':
+        make, F = _affine(p['A'].rows, p['A'], p['c'])
+        return make, F, p['A'].rows
+    if fam == 'polar':
+        r = p['rmin'] * (1 - x1) + p['rmax'] * x1
+        return (lambda name: am.PolarMapping(name, **p)), [p['c1'] + r * cos(x2), p['c2'] + r * sin(x2)], 2
+    if fam == 'target':
+        return (lambda name: am.TargetMapping(name, **p)), [p['c1'] + (1 - p['k']) * x1 * cos(x2) - p['D'] * x1 ** 2,
+                                                            p['c2'] + (1 + p['k']) * x1 * sin(x2)], 2
+    if fam == 'torus':
+        return (lambda name: am.TorusMapping(name, **p)), [(p['R0'] + x1 * cos(x2)) * cos(x3), (p['R0'] + x1 * cos(x2)) * sin(x3),
+                                                           x1 * sin(x2)], 3
+    if fam == 'torussurf':
+        return (lambda name: am.TorusSurfaceMapping(name, **p)), [(p['R0'] + p['a'] * cos(x1)) * cos(x2),
+                                                                  (p['R0'] + p['a'] * cos(x1)) * sin(x2), p['a'] * sin(x1)], 2
+    raise ValueError(fam)
+
+
+# the same mapping NAME (and patch name) used again in one process with other parameter values, as in a
+# parameter study: every problem must get the elements of its own mapping, the later ones too
+HISTORY = [
+    ('polar', [dict(c1=0, c2=0, rmin=1, rmax=2), dict(c1=0, c2=0, rmin=1, rmax=3), dict(c1=0, c2=0, rmin=Rational(1, 2), rmax=2)]),
+    ('affine', [dict(A=Matrix(2, 2, [2, 1, 0, 3]), c=[0, 0]), dict(A=Matrix(2, 2, [1, -2, 1, 1]), c=[0, 0])]),
+    ('target', [dict(c1=0, c2=0, k=Rational(3, 10), D=Rational(1, 5)), dict(c1=0, c2=0, k=Rational(1, 5), D=Rational(3, 10))]),
+    ('torussurf', [dict(R0=3, a=1), dict(R0=4, a=2)]),
+]
+
+
+def random_history(rng):
+    """(family, [parameters, other parameters]) : two different parameter sets of one catalogue mapping"""
+    fam = rng.choice(['polar', 'polar', 'affine', 'target'])
+
+    def draw():
+        if fam == 'polar':
+            rmin = rng.choice([Rational(1, 2), S(1), S(2)])
+            return dict(c1=rng.choice([0, 1]), c2=rng.choice([0, -1]), rmin=rmin, rmax=rmin + rng.choice([1, 2, Rational(3, 2)]))
+        if fam == 'target':
+            return dict(c1=0, c2=0, k=Rational(rng.choice([2, 3, 4]), 10), D=Rational(rng.choice([1, 2, 3]), 10))
+        while True:
+            Amat = Matrix(2, 2, [rng.choice([-2, -1, 1, 2, 3]) for _ in range(4)])
+            if Amat.det() != 0:
+                return dict(A=Amat, c=[rng.choice([0, 1]), rng.choice([0, -1])])
+    first = draw()
+    while True:
+        second = draw()
+        if second != first:
+            return fam, [first, second]
+
+
 def regions_of(dom):
     """[(region object, axis or None, ext or None)] : the interior and every face of a one-patch domain"""
     out = [(dom, None, None)]
@@ -155,11 +314,19 @@ def single_cases(ctx, n):
     rng = ctx.rng
     envs = {}
     for _ in range(n):
-        if rng.random() < 0.22:
+        k = rng.random()
+        if k < 0.22:
             mt = rng.choice(['torussurf', 'twistedsurf', 'polysurf', 'symsurf'])
             key = ('s', mt)
             if key not in envs:
                 envs[key] = SurfEnv(rng, mt)
+        elif k < 0.34:
+            # volume preserving, not an isometry: det(JᵀJ) = 1 inside, stretched faces
+            dim = rng.choice([2, 2, 3])
+            mt = rng.choice(['vpaffine', 'vppoly'])
+            key = (dim, mt, rng.randrange(3))
+            if key not in envs:
+                envs[key] = vp_env(rng, dim, mt)
         else:
             dim = rng.choice([1, 2, 2, 2, 3, 3])
             mt = rng.choice([m for m in MTYPES[dim] if m != 'collela'])
@@ -424,30 +591,74 @@ def oracle(ctx, factor, seeds):
         corpus.append((senv, reg, axis, ext, senv.sf['h1'][1], senv.sf['h1'][1],
                        'corpus:torus surface %s' % ('interior' if axis is None else 'face %d %d' % (axis, ext))))
     corpus.append((senv, senv.domain, None, None, PHYS[2] * senv.sf['h1'][1], senv.sf['h1'][1], 'corpus:torus surface z*v interior'))
-    stream = itertools.chain(corpus, ((a, b, c_, d, e, v, None) for a, b, c_, d, e, v in single_cases(ctx, n)))
-    for env, reg, axis, ext, e, v, key in stream:
+    # volume-preserving mappings that are no isometries, every face: the affine shear (1 1; 0 1), the parabolic
+    # shear (x1, x2 + x1**2), a squeeze, a 3-D shear (seeded change C04-10 used the element 1 of the full metric
+    # on the faces as well)
+    fixed_vp = [('shear', 2) + _affine(2, Matrix(2, 2, [1, 1, 0, 1]), [0, 0]),
+                ('squeeze', 2) + _affine(2, Matrix(2, 2, [2, 0, 0, Rational(1, 2)]), [1, 0]),
+                ('parabolic shear', 2, _user_mapping({'x': 'x1', 'y': 'x2 + x1**2'}, 2, 2), [LOGI[0], LOGI[1] + LOGI[0] ** 2]),
+                ('shear', 3) + _affine(3, Matrix(3, 3, [1, 1, 0, 0, 1, 2, 0, 0, 1]), [0, 0, 0])]
+    for nm, dim, make, F in fixed_vp:
+        env = PEnv(dim, 'vp-' + nm.replace(' ', '-'), make, F, tag='c4k')
+        for reg, axis, ext in regions_of(env.domain):
+            corpus.append((env, reg, axis, ext, env.sf['h1'][1] * (env.coords[0] + 2), env.sf['h1'][1],
+                           'corpus:volume-preserving %s %dd %s' % (nm, dim, 'interior' if axis is None else 'face %d %d' % (axis, ext))))
+
+    def one(env, reg, axis, ext, e, v, key):
         o.evaluations += 1
         try:
             with time_limit(900 if key else 60):
                 ks = kernels(LinearForm(v, integral(reg, e)), env.domain, env.logical_domain)
         except Timeout:
             o.count('impl-timeout')
-            continue
+            return
         except Exception as ex:
             o.count('refused:' + type(ex).__name__)
             if key:
                 o.fail(key, '%s raised %s' % (key, type(ex).__name__))
-            continue
+            return
         if len(ks) != 1:
             o.fail(key or 'count:%s:%s' % (env.mtype, e), 'one integral gave %d kernels' % len(ks))
-            continue
+            return
         pname, face, kexpr, tg = ks[0]
         want = None if axis is None else (axis, ext)
         if pname != env.logical_domain.name or face != want:
             o.fail(key or 'region:%s:%s:%s' % (env.mtype, want, e),
                    'the integral over %s of patch %s is transformed to an integral over %s of %s' % (want, env.logical_domain.name, face, pname))
-            continue
+            return
         check_kernel(ctx, o, env, e, v, axis, ext, kexpr, key)
+
+    stream = itertools.chain(corpus, ((a, b, c_, d, e, v, None) for a, b, c_, d, e, v in single_cases(ctx, n)))
+    for env, reg, axis, ext, e, v, key in stream:
+        one(env, reg, axis, ext, e, v, key)
+    # call history: a mapping of the same class and NAME (on a patch of the same name) set up again in this process
+    # with other parameter values; each problem is lowered before the next one is set up, and every one of them
+    # must carry the elements of its own mapping (seeded change C04-9 dropped the expressions from the mapping's
+    # identity: the later mappings got the first one's Jacobian out of sympy's caches)
+    def history(fam, seq, names, fixed):
+        for k, p in enumerate(seq):
+            make, F, ldim = catalogue(fam, p)
+            env = PEnv(ldim, 'hist-' + fam, make, F, tag='c4h', mname='M' + names, lname='Om' + names)
+            regs = regions_of(env.domain)
+            if fixed:
+                regs = [regs[0], regs[1 + (k % 2)], regs[4 - (k % 2)]]      # the interior, one face per axis
+            else:
+                regs = [regs[0], ctx.rng.choice(regs[1:])]
+            v = env.sf['h1'][1]
+            for reg, axis, ext in regs:
+                e = v * (env.coords[0] + 2) if fixed else gen_integrand(ctx.rng, env)[0]
+                key = None
+                if fixed:
+                    key = 'history:%s, parameter set %d of %d under one name, %s' % (
+                        fam, k + 1, len(seq), 'interior' if axis is None else 'face %d %d' % (axis, ext))
+                one(env, reg, axis, ext, e, v, key)
+                o.count('history:%s:%s' % (fam, 'first' if k == 0 else 'later'))
+
+    for fam, seq in HISTORY:
+        history(fam, seq, 'c4hist' + fam, True)
+    for _ in range((12 if ctx.thorough else 3) * factor):
+        fam, seq = random_history(ctx.rng)
+        history(fam, seq, 'c4hrnd' + fam, False)
     # multi-patch domains
     for _ in range((10 if ctx.thorough else 3) * factor):
         envs, D = multi_layout(ctx.rng)
